@@ -66,11 +66,12 @@ PROPS["C04"] = {
              "under dst is resolved component by component with Lstat/Readlink (lexically past the first missing component, hop limit 40) and "
              "must land inside the real path of dst unless allow-listed. Second sub-check: a benign archive with exactly one link that leaves "
              "dst directly (relative '..' run by depth, absolute, sibling-prefix, {DST}/..) must be refused with *IllegalSlugError and the link "
-             "must not exist afterwards. Non-trivial = allow-list case, sibling-prefix target, a link target traversing another link's name, "
+             "must not exist afterwards. Third sub-check: an entry (file, dir or link; several spellings incl. 'missing/../') whose path lies below a "
+             "link created earlier by the same archive must make Unpack fail and nothing may appear at the link's target. Non-trivial = allow-list case, sibling-prefix target, a link target traversing another link's name, "
              "or the one-offending-link class; distinct by case hash."),
     "assumptions": ["dst has no pre-existing symlinks", "absolute targets that point into dst are not required to be rejected (existing tested behaviour)"],
-    "quick": [rapid("links", "^TestPropLinks$", 2000, shards=3), rapid("reject", "^TestPropReject$", 2500, shards=1)],
-    "thorough": [rapid("links", "^TestPropLinks$", 30000, shards=12), rapid("reject", "^TestPropReject$", 30000, shards=2)],
+    "quick": [rapid("links", "^TestPropLinks$", 2000, shards=3), rapid("reject", "^TestPropReject$", 2500, shards=1), rapid("through", "^TestPropThrough$", 400, shards=1), rapid("reuse", "^TestPropReuse$", 300, shards=1)],
+    "thorough": [rapid("links", "^TestPropLinks$", 30000, shards=11), rapid("reject", "^TestPropReject$", 30000, shards=2), rapid("through", "^TestPropThrough$", 5000, shards=1), rapid("reuse", "^TestPropReuse$", 3000, shards=1)],
 }
 
 PROPS["C02"] = {
@@ -91,7 +92,7 @@ PROPS["C02"] = {
 PROPS["C15"] = {
     "pkg": "c15",
     "level": "exploration",
-    "rule": ("Exhaustive: every entry sequence of length<=3 over a 16-variant alphabet (files incl. read-only and mode 0000, dirs 0755/0555/"
+    "rule": ("Exhaustive: every entry sequence of length<=3 over a 18-variant alphabet (files incl. read-only and mode 0000, dirs 0755/0555/"
              "0700/0500, in-dst links, leading '/' and './', PAX extended and global headers, a hard link; USTAR/PAX/GNU) as root and as uid "
              "65534; rapid: sequences of 1-12 entries over 9 paths (incl. a 230-byte PAX name) and Pack-shaped archives. Oracle: a reference "
              "sequential interpreter written from the property text gives the expected tree (paths exactly, type, content, Perm bits, mtime "
